@@ -380,6 +380,15 @@ pub const GC_F17: &[(&str, &str)] = &[
         (func (export "g") (result funcref) (ref.func $f)))"#),
     ("undeclared-ref-func-after-gc-passive-segment", r#"(module (func $f) (elem $p func $f) (func (export "g") (result funcref) (ref.func $f)))"#),
     ("undeclared-ref-func-after-gc-global", r#"(module (func $f) (global $unused funcref (ref.func $f)) (func (export "g") (result funcref) (ref.func $f)))"#),
+    // ... the same when the function is kept for another reason that is NOT a declaration: it is the start function (the start section
+    // does not declare), it is called, it sits in a kept table through an expression of another kept segment
+    ("undeclared-ref-func-of-the-start-function", r#"(module (table $t 1 funcref) (func $s) (start $s) (elem (table $t) (i32.const 0) func $s)
+        (func (export "g") (result funcref) (ref.func $s)))"#),
+    ("undeclared-ref-func-of-the-start-function-global", r#"(module (func $s) (start $s) (global $unused funcref (ref.func $s)) (func (export "g") (result funcref) (ref.func $s)))"#),
+    ("undeclared-ref-func-of-a-called-function", r#"(module (func $f) (elem $p func $f) (func (export "g") (result funcref) (call $f) (ref.func $f)))"#),
+    ("undeclared-ref-func-in-a-nested-block-of-a-called-function", r#"(module (func $f) (elem $p func $f) (func $h (result funcref) (block (result funcref) (ref.func $f)))
+        (func (export "g") (drop (call $h))))"#),
+    ("ref-func-of-an-imported-function", r#"(module (import "e" "i" (func $i)) (elem $p func $i) (func (export "g") (result funcref) (ref.func $i)))"#),
 ];
 
 pub const GC_CORPUS: &[(&str, &str)] = &[
